@@ -90,7 +90,34 @@ def gen_case(rng, exact=True):
         ts = [(lin, F(rng.randint(0, 8)))]
         order = rng.choice([[5], [5, 1], [2, 5], [1, 2, 3, 4, 5]])
         simplify = False
+    elif rng.random() < 0.12:
+        # chains of two-variable rows through eliminated variables (tactic 4 recursion), ending in a bound or in a dead end
+        ts, ctx, elim, order = chain_case(rng, refine)
     return ts, ctx, elim, refine, simplify, order
+
+
+def chain_case(rng, refine):
+    k_ = rng.randint(2, 4)
+    names = list(gen.VARS)
+    rng.shuffle(names)
+    kept, chain = names[0], names[1:1 + k_]
+    s0 = rng.choice([1, -1])
+    ts = [({kept: gen.rand_coef(rng), chain[0]: F(s0) * rng.choice(gen.POW2[:3])}, F(rng.randint(-4, 8)))]
+    ctx = []
+    sgn = s0 if refine else -s0            # direction in which the next link is useful (mostly), sometimes wrong
+    for i in range(k_ - 1):
+        d = sgn if rng.random() < 0.85 else -sgn
+        ctx.append(({chain[i]: F(d) * rng.choice(gen.POW2[:3]), chain[i + 1]: F(-d) * rng.choice(gen.POW2[:3])}, F(rng.randint(-3, 6))))
+    r = rng.random()
+    if r < 0.45:
+        ctx.append(({chain[-1]: F(sgn if rng.random() < 0.8 else -sgn)}, F(rng.randint(0, 6))))        # the chain ends in a bound
+    elif r < 0.6:
+        ctx.append(({chain[-1]: F(sgn), kept: gen.rand_coef(rng)}, F(rng.randint(0, 6))))                # … or in a kept variable
+    if rng.random() < 0.3:
+        ctx.append(({chain[rng.randrange(k_)]: F(rng.choice([1, -1])), kept: F(1)}, F(rng.randint(0, 6))))
+    rng.shuffle(ctx)
+    order = rng.choice([[4], [1, 2, 3, 4, 5], [4, 1], [3, 4]])
+    return ts, ctx, list(chain), order
 
 
 def _det(m):
